@@ -1,6 +1,7 @@
 //! Bridge between the model (`vmodel`) and the code under test (`desert`, built from /repo).
 pub mod compiled;
 pub mod conv;
+pub mod statics;
 pub mod dynrec;
 pub mod live;
 
